@@ -103,3 +103,62 @@ Proof.
   rewrite Forall_forall in Hx. apply Forall_forall. intros y' Hy'.
   destruct (F2_In_l _ _ _ _ HF Hy') as [y [Hy Sy]]. apply (Hm x' x y' y Sx Sy). apply Hx; exact Hy.
 Qed.
+
+(* ---- sub-sequences ---- *)
+
+Inductive sublist {A} : list A -> list A -> Prop :=
+| sl_nil : sublist [] []
+| sl_skip : forall x l' l, sublist l' l -> sublist l' (x :: l)
+| sl_take : forall x l' l, sublist l' l -> sublist (x :: l') (x :: l).
+
+Lemma sublist_nil_l : forall {A} (l : list A), sublist [] l.
+Proof. induction l; constructor; assumption. Qed.
+
+Lemma sublist_app_skip : forall {A} (pre l' l : list A), sublist l' l -> sublist l' (pre ++ l).
+Proof. induction pre; simpl; intros; [assumption | constructor; auto]. Qed.
+
+Lemma sublist_incl : forall {A} (l' l : list A), sublist l' l -> incl l' l.
+Proof.
+  induction 1; [apply incl_refl | apply incl_tl; assumption|].
+  apply incl_cons; [left; reflexivity | apply incl_tl; assumption].
+Qed.
+
+Lemma sublist_concat_incl : forall {A} (bs' bs : list (list A)), sublist bs' bs -> incl (concat bs') (concat bs).
+Proof.
+  induction 1; simpl; [apply incl_refl | apply incl_appr; assumption|].
+  apply incl_app; [apply incl_appl; apply incl_refl | apply incl_appr; assumption].
+Qed.
+
+Lemma sublist_concat_NoDup : forall {A} (bs' bs : list (list A)), sublist bs' bs -> NoDup (concat bs) -> NoDup (concat bs').
+Proof.
+  induction 1; simpl; intro Hn; [exact Hn | |].
+  - apply NoDup_app_iff in Hn. destruct Hn as [_ [Hn _]]. apply IHsublist; exact Hn.
+  - apply NoDup_app_iff in Hn. destruct Hn as [N1 [N2 D]]. apply NoDup_app_iff.
+    repeat split; [exact N1 | apply IHsublist; exact N2|].
+    intros y Hy Hy'. apply (D y Hy). apply (sublist_concat_incl _ _ H). exact Hy'.
+Qed.
+
+Lemma sublist_FOP : forall {A} (R : A -> A -> Prop) (l' l : list A), sublist l' l -> ForallOrdPairs R l -> ForallOrdPairs R l'.
+Proof.
+  induction 1; intro Hf; [exact Hf | |].
+  - inversion Hf; subst. apply IHsublist; assumption.
+  - inversion Hf as [|x0 l0 Hx Hf']; subst. constructor; [|apply IHsublist; exact Hf'].
+    rewrite Forall_forall in Hx. apply Forall_forall. intros y Hy. apply Hx. apply (sublist_incl _ _ H). exact Hy.
+Qed.
+
+Lemma incl_concat_elem : forall {A} (b : list A) bs, In b bs -> incl b (concat bs).
+Proof. intros A b bs Hb x Hx. apply in_concat. exists b. auto. Qed.
+
+Lemma NoDup_remove_mid : forall {A} (a m c : list A),
+    NoDup (a ++ m ++ c) -> NoDup (a ++ c) /\ NoDup m /\ (forall x, In x m -> ~ In x (a ++ c)).
+Proof.
+  intros A a m c Hn. apply NoDup_app_iff in Hn. destruct Hn as [Na [Nmc D]].
+  apply NoDup_app_iff in Nmc. destruct Nmc as [Nm [Nc Dm]].
+  repeat split.
+  - apply NoDup_app_iff. repeat split; [exact Na | exact Nc|].
+    intros x Hx Hx'. apply (D x Hx). apply in_or_app. right. exact Hx'.
+  - exact Nm.
+  - intros x Hx Hin. apply in_app_or in Hin. destruct Hin as [Hin|Hin].
+    + apply (D x Hin). apply in_or_app. left. exact Hx.
+    + apply (Dm x Hx Hin).
+Qed.
